@@ -363,6 +363,11 @@ class Check:
         self.cov["evaluations"] += 1
         if nontrivial and key is not None:
             self._distinct.add(key)
+        if not self.dry:
+            # stuttering steps of every specification: unrelated library traffic between the judged calls
+            from harness import chatter
+
+            chatter.tick(self.pid)
 
     def sample(self, obj, limit=6):
         if len(self.cov["samples"]) < limit:
@@ -427,6 +432,9 @@ class Check:
     def finish(self, rule, exhaustive=False, trusted=None, extra=None):
         cov = self.cov
         cov["distinct_nontrivial"] = len(self._distinct)
+        from harness import chatter
+
+        cov["stuttering_steps"] = chatter.summary()
         cov["rule"] = rule
         cov["exhaustive"] = bool(exhaustive)
         cov["known_findings_hit"] = self.known_hits
